@@ -7,7 +7,7 @@ package render
 
 // "tree": rendering never writes the compiled template, slices that existed before the
 // call, or the wiring of a trimWriter (C03).
-//@ macro tree = sameold("S$Val") && sameold("S$Str") && sameheap("F$render.trimWriter$w") && sameheap("F$render.SeqNode$Children") && sameheap("F$render.BlockNode$Body") && sameheap("F$render.BlockNode$Clauses") && sameheap("F$render.BlockNode$renderer") && sameheap("F$render.BlockNode$Token") && sameheap("F$render.TagNode$renderer") && sameheap("F$render.TagNode$Token") && sameheap("F$render.TextNode$Token") && sameheap("F$render.ObjectNode$Token") && sameheap("F$render.ObjectNode$expr") && sameheap("F$render.RawNode$slices")
+//@ macro tree = sameold("S$Val") && sameold("S$Str") && sameold("F$render.trimWriter$w") && sameold("F$render.SeqNode$Children") && sameold("F$render.BlockNode$Body") && sameold("F$render.BlockNode$Clauses") && sameold("F$render.BlockNode$renderer") && sameold("F$render.BlockNode$Token") && sameold("F$render.TagNode$renderer") && sameold("F$render.TagNode$Token") && sameold("F$render.TextNode$Token") && sameold("F$render.ObjectNode$Token") && sameold("F$render.ObjectNode$expr") && sameold("F$render.RawNode$slices")
 
 // ---- render.Context: the interface tag renderers program against ------------
 // Bindings() is the identity of the one variable map of the current render
